@@ -475,6 +475,14 @@ func (fx *fnExec) trySel(v St, name string, env *SpecEnv) (r SV) {
 }
 
 func (fx *fnExec) specIndex(v, i SV, env *SpecEnv) SV {
+	if fx.mode == "bv" {
+		// an index of a narrower unsigned type (a byte used as a table index) is widened like Go does
+		if sc, ok := i.(Sc); ok {
+			if w := bvWidth(sc.T.So); w > 0 && w < 64 {
+				i = Sc{fx.bvResize(sc.T, 64), types.Typ[types.Int]}
+			}
+		}
+	}
 	switch s := v.(type) {
 	case Sl:
 		ix := fx.idx(i)
